@@ -272,6 +272,23 @@ CLAIMED['C15'] = {
             'streamed value); a crash is a process death, not a power failure (no fsync claim); the specialised extractor in lib/props/C15.py + py2v.',
 }
 
+CLAIMED['C02'] = {
+    'technique': 'Rocq proof (Coquelicot: correctness, openness of the domain and symmetry of a symbolic derivative on the deep embedding; packaging theorems over definitions regenerated from source, tie A) + correspondence of every derivative entry returned by the engine with proved interval enclosures (tie B)',
+    'text': ('Proved for every expression tree of the smooth fragment (+ - x / neg exp log sin cos, x**c, x**y, normal CDF, bioMultSum, bioLinearUtility, LogLogit, '
+             'Elem / ConditionalSum with parameter-free keys and conditions), every environment in the open domain dom and every list of parameters: the tree D w e '
+             'evaluates to the partial derivative of the value of e (is_derive); D w\' (D w e) is the second partial derivative and the Hessian is symmetric; entry '
+             'i / (i, j) belongs to the i-th / j-th sorted free-parameter name; the sum over observations of the derivative values is the derivative of the aggregated '
+             'value; BHHH entry (i, j) = sum_r g_r[i] g_r[j]; division by N commutes with differentiation. Proved about Gallina definitions regenerated on every run from '
+             'idmanager.py, function_output.py, calculator.py, base_expressions.py, biogeme.py: names sorted and index = rank; literal ids 0..n-1; convert_to_dict / '
+             'Named*FunctionOutput attach entry i to the i-th name; aggregated mode returns f[0], g[0], h[0], b[0], None for what was not asked; hessian/bhhh without '
+             'gradient is the only refusal; scaling divides all four outputs by N. Tied on every run: every per-observation value / gradient / Hessian entry of '
+             'get_value_and_derivatives on generated differentiable DAGs vs the proved enclosure of evalX (D ...), membership decided in Coq; exact-rational oracles for '
+             'symmetry, BHHH, aggregation, all request modes, refusals, named outputs, order-reversing renamings, calculate_likelihood_and_derivatives (scaled or not, '
+             '1-3 threads), create_function. Two engine defects are KNOWN findings (Hessian of x**2; gradient of a bioLinearUtility with a repeated parameter).'),
+    'note': KERNEL + 'one Section hypothesis: Phi\'(x) = c exp(-x^2/2), c the double nearest to 1/sqrt(2 pi); the engine\'s derivative code is external C++, only sampled '
+            'against the proved trees; IEEE rounding covered by 2^-30 / 2^-24 relative tolerances; lib/props/c02_pack.py trusted as a fail-closed extractor.',
+}
+
 _NOT_YET = 'check not built yet in this session (framework under construction); no claim made'
 NOT_APPLICABLE = {p: _NOT_YET for p in
                   ['C01', 'C02', 'C03', 'C04', 'C05', 'C06', 'C07', 'C08', 'C09', 'C10', 'C11', 'C12', 'C13',
